@@ -466,6 +466,8 @@ func runC17(c *Ctx, r *Report) {
 	importRules(c, r, "C10", []string{"R-C10.1", "R-C10.13"}, "R-C17.7")
 	r.Doc("R-C17.8", "the block written for an entry carries every field exactly as the entry holds it (adopted from C08: a hash that was returned must load to the state at the moment it was produced, payload bytes included)")
 	importRules(c, r, "C08", []string{"R-C08.2", "R-C08.6"}, "R-C17.8")
+	importRules(c, r, "C09", []string{"R-C09.8"}, "R-C17.8")  // whatever Append wrote must load again: the readers refuse only undecodable blocks
+	importRules(c, r, "C18", []string{"R-C18.14"}, "R-C17.8") // …and keep the links the block carries unless they opened sealed ones
 	errDiscipline(c, r, "R-C17.6", func(fn *Fn) bool {
 		return rootNamed(fn, "Write", "CreateEntryWithIO", "CreateEntry", "ToMultihashWithIO", "ToMultihash", "toMultihash", "Append", "WriteCBOR")
 	}, "the operation reports success (and hands out an identifier) although a step of writing the block failed", deliberateDiscards)
